@@ -727,7 +727,8 @@ def sensor_to_categorical(sensor_timestamps, sensor_values, dump_midtimes,
     # The dump index of prior events is -1 and of later events is `num_dumps`
     first_proper_event = events.searchsorted(-1, side='right')
     # Shift the final prior event (if any) to the start of the first dump
-    if first_proper_event > 0:
+    has_prior_event = first_proper_event > 0
+    if has_prior_event:
         first_proper_event -= 1
         events[first_proper_event] = 0
     one_past_last_event = events.searchsorted(num_dumps)
@@ -744,7 +745,7 @@ def sensor_to_categorical(sensor_timestamps, sensor_values, dump_midtimes,
         sensor_values = np.array([transform(y) for y in sensor_values])
     # Force first dump to have valid sensor value
     # (insert initial value or let the first proper value apply from the start)
-    if events[0] != 0 and initial_value is not None:
+    if not has_prior_event and initial_value is not None:
         if wrapped_values:
             initial_value = ComparableArrayWrapper(initial_value)
         sensor_values = np.r_[[initial_value], sensor_values]
